@@ -34,7 +34,10 @@ H3_STUB = {
 ENGINES["h3"] = {
     "package": "server",
     "harness": "server",
-    "instrument": ["server", "server/commitlog", "server/telemetry"],
+    "instrument": ["server", "server/commitlog", "server/telemetry", "server/encryption"],
+    # stores to shared memory are scheduling points here (the request path and the encryption handler, which
+    # API and subscription goroutines share): races between plain memory accesses are explored in these files
+    "mem": ["server/encryption", "server:api.go"],
     "derive_startsim": True,
     "extra_harness": [("server/commitlog", "commitlog")],
     "fs": ["server/commitlog"],
